@@ -95,3 +95,24 @@ package utils
 //@ wire ValueRange
 //@   property C01 C18 C20
 //@   json Min=min Max=max
+
+// ---- registries looked up by name (C20): abstract view of "something that can list identifiable objects"
+// identOf: the name an object registers under; iterLen / iterAt: what an IdentifiableIterable lists (each registry gives its own
+// definition through "refines"; a caller that passes a registry of a statically known type gets that definition at the call)
+//@ spec identOf(x Identifiable) string
+//@ ifacemethod Identifiable.Identifier
+//@   ensures result == identOf(self)
+//@ spec iterLen(it IdentifiableIterable) int
+//@ spec iterAt(it IdentifiableIterable, i int) Identifiable
+//@ ifacemethod IdentifiableIterable.Len
+//@   ensures result == iterLen(self)
+//@ ifacemethod IdentifiableIterable.Get
+//@   ensures result == iterAt(self, index)
+// AsMap: every listed object under its own name (a later object with the same name replaces an earlier one)
+//@ func AsMap
+//@   property C20 C01 C03 C04 C05 C06 C07 C08 C09 C11 C12 C13 C14 C15 C16 C17 C18 C19
+//@   ensures [names_of_the_listed_objects] result != nil && forall q string :: q in *result <==> exists i int :: 0 <= i && i < iterLen(objects) && identOf(iterAt(objects, i)) == q
+//@   ensures [each_name_leads_to_an_object_of_that_name] forall q string :: q in *result ==> exists i int :: 0 <= i && i < iterLen(objects) && (*result)[q] == iterAt(objects, i) && identOf(iterAt(objects, i)) == q
+//@   loop 1 invariant [ctx] fresh(interfaceSlice) && interfaceSlice != nil && total == iterLen(objects) && 0 <= i
+//@   loop 1 invariant [names_so_far] forall q string :: q in interfaceSlice <==> exists k int :: 0 <= k && k < i && k < total && identOf(iterAt(objects, k)) == q
+//@   loop 1 invariant [objects_so_far] forall q string :: q in interfaceSlice ==> exists k int :: 0 <= k && k < i && k < total && interfaceSlice[q] == iterAt(objects, k) && identOf(iterAt(objects, k)) == q
